@@ -300,6 +300,14 @@ func doCheck(prop, tier string, seed uint64, runsOverride, budgetOverride int) i
 	return exit
 }
 
+// outDir: /verif, unless an experiment on a scratch tree redirects evidence and replays elsewhere.
+func outDir() string {
+	if d := os.Getenv("VERIF_OUTDIR"); d != "" {
+		return d
+	}
+	return verifDir
+}
+
 func kfKey(f *Finding) string {
 	if f.Sig != "" {
 		return f.Sig
@@ -388,7 +396,7 @@ func writeEvidence(prop, tier string, seed uint64, pl plan, t *tally, violations
 		},
 	}
 	b, _ := json.MarshalIndent(ev, "", " ")
-	dir := filepath.Join(verifDir, "evidence")
+	dir := filepath.Join(outDir(), "evidence")
 	os.MkdirAll(dir, 0o755)
 	if err := os.WriteFile(filepath.Join(dir, prop+".json"), b, 0o644); err != nil {
 		die2("cannot write evidence: %v", err)
@@ -437,7 +445,7 @@ func cloneCfg(c map[string]any) map[string]any {
 }
 
 func reportViolation(prop string, f *found) string {
-	dir := filepath.Join(verifDir, "replays", prop)
+	dir := filepath.Join(outDir(), "replays", prop)
 	os.MkdirAll(dir, 0o755)
 	base := cloneCfg(f.out.cfg)
 	rf := replayFile{Property: prop, Signature: f.sig, Message: f.msg, Cfg: base}
